@@ -332,9 +332,7 @@ class Evaluator:
             if w == "keys":
                 return [p[0] for p in pairs]
             if w == "values":
-                if for_loop:
-                    return [p[1] for p in pairs]
-                return sort_key_list([p[1] for p in pairs])
+                return [p[1] for p in pairs]        # in key order, for loops and comprehensions alike
             return [RList([p[0], p[1]]) for p in pairs]
         if k == "str":
             return [("str", ch) for ch in coll[1]]
